@@ -19,6 +19,7 @@ import (
 
 	mail "github.com/wneessen/go-mail"
 	maillog "github.com/wneessen/go-mail/log"
+	"github.com/wneessen/go-mail/smtp"
 
 	"verif/harness/pipeconn"
 	"verif/harness/rec"
@@ -93,6 +94,26 @@ func CredScan(pass string) func(string) bool {
 		}
 		return false
 	}
+}
+
+func rawMech(t, host string) smtp.Auth {
+	switch t {
+	case "PLAIN":
+		return smtp.PlainAuth("", User, Pass, host, false)
+	case "PLAIN-NOENC":
+		return smtp.PlainAuth("", User, Pass, host, true)
+	case "LOGIN":
+		return smtp.LoginAuth(User, Pass, host, false)
+	case "LOGIN-NOENC":
+		return smtp.LoginAuth(User, Pass, host, true)
+	case "CRAM-MD5":
+		return smtp.CRAMMD5Auth(User, Pass)
+	case "XOAUTH2":
+		return smtp.XOAuth2Auth(User, Pass)
+	case "SCRAM-SHA-1":
+		return smtp.ScramSHA1Auth(User, Pass)
+	}
+	return smtp.ScramSHA256Auth(User, Pass)
 }
 
 var authTypes = map[string]mail.SMTPAuthType{
@@ -477,7 +498,7 @@ func (rn *Runner) Run() {
 		if e.C == "stall" || e.C == "cstall" {
 			rn.stall = true
 		}
-		if e.C == "cstall" {
+		if e.C == "cstall" || e.C == "cwfail" {
 			cfg.Big = true
 		}
 	}
@@ -540,7 +561,11 @@ func (rn *Runner) Run() {
 	rn.srv = refsmtp.New(scfg, r)
 
 	refusePrimary := false
+	wfail := map[refsmtp.Key]bool{}
 	for _, e := range sc.Env {
+		if e.C == "wfail" || e.C == "cwfail" {
+			wfail[refsmtp.Key{V: e.V, M: e.M, R: e.R}] = true
+		}
 		if e.V == "DIAL" && e.C == "refuse" {
 			refusePrimary = true
 		}
@@ -555,6 +580,7 @@ func (rn *Runner) Run() {
 		cl, sv := pipeconn.Pipe()
 		rn.srv.Go(sv)
 		t := refsmtp.NewTrackConn(cl, r)
+		t.WFail, t.Addr = wfail, addr
 		rn.tracks = append(rn.tracks, t)
 		return t, nil
 	}
@@ -637,6 +663,42 @@ func (rn *Runner) Run() {
 	}
 
 	switch cfg.Op {
+	case "RawAuth": // the smtp package used directly: NewClient, Auth with its lazy EHLO, Quit
+		r.Emit("call", "op", "RawAuth")
+		var aerr error
+		var sc2 *smtp.Client
+		el := rn.timed(func() {
+			conn, _ := dial(context.Background(), "tcp", host+":25")
+			sc2, aerr = smtp.NewClient(conn, host)
+			if aerr != nil {
+				return
+			}
+			if cfg.Debug {
+				tap := &logTap{r: r, scan: scan}
+				switch cfg.Logger {
+				case "std":
+					sc2.SetLogger(maillog.New(tap, maillog.LevelDebug))
+				case "json":
+					sc2.SetLogger(maillog.NewJSON(tap, maillog.LevelDebug))
+				default:
+					sc2.SetLogger(tap)
+				}
+				sc2.SetDebugLog(true)
+			}
+			if cfg.Logauth {
+				sc2.SetLogAuthData()
+			}
+			aerr = sc2.Auth(rawMech(cfg.Authtype, host))
+		})
+		r.Emit("ret", "op", "RawAuth", "err", aerr != nil, "elapsed", el, "text", clip(aerr))
+		if aerr == nil && sc2 != nil {
+			var cerr error
+			el = rn.timed(func() { cerr = sc2.Quit() })
+			r.Emit("ret", "op", "Close", "err", cerr != nil, "elapsed", el, "text", clip(cerr))
+		}
+		if sc2 != nil {
+			_ = sc2.Close()
+		}
 	case "Send":
 		r.Emit("call", "op", "Dial")
 		var derr error
